@@ -1629,6 +1629,15 @@ class C13(Property):
     CHUNK = 1500
 
     def execute(self, cases, ctx):
+        """One pass over the executors, then every observation on which the model disagrees or the property fails
+        is taken again ONCE in a fresh executor process and kept only if it persists (props.c19.confirm_in_fresh_process):
+        the generations / `regen` family waits with bounded timeouts, and a starved goroutine on a loaded machine
+        produced one agrees-only disagreement in about ten runs that no re-evaluation of the same case reproduced."""
+        res = self._execute_once(cases, ctx)
+        from props.c19 import confirm_in_fresh_process
+        return confirm_in_fresh_process(self, ctx, cases, res, lambda cs: self._execute_once(cs, ctx))
+
+    def _execute_once(self, cases, ctx):
         groups = {}
         for i, c in enumerate(cases):
             groups.setdefault(pkg_of(c), []).append((i, c))
